@@ -96,6 +96,23 @@ def errname(ex):
     return "Other:" + n + ":" + str(ex)[:80]
 
 
+def conv(x, np_ints):
+    """an index / count argument in the numeric representation the case asks for"""
+    if not np_ints or x is None:
+        return x
+    import numpy as np
+    return [np.int64, np.int32, np.intp][int(x) % 3](x)
+
+
+def after_failure(out, res, mesh, conn_ok):
+    """state left behind by a block whose last operation raised (the caller caught the exception)"""
+    try:
+        out["after"] = {"res": dump(res), "arg": dump(mesh), "same_obj": res is mesh,
+                        "res_conn_ok": conn_ok(res), "arg_conn_ok": conn_ok(mesh)}
+    except Exception as ex:  # noqa
+        out["after_error"] = errname(ex)
+
+
 def build(M, V, E=None, F=None, C=None, dim=None):
     from mouette.mesh.mesh_data import RawMeshData
     from mouette.mesh.mesh import _instanciate_raw_mesh_data
@@ -118,27 +135,32 @@ def run_surf(M, case):
         mesh.connectivity.vertex_to_faces(0)
         _ = mesh.boundary_vertices
     sd = None
+    npi = case.get("np_ints")
     try:
         with SurfaceSubdivision(mesh) as sd:
             for op in case["ops"]:
                 name = op[0]
+                arg = conv(op[1], npi) if len(op) > 1 else None
+                form = op[2] if len(op) > 2 else "pos"      # call form: positional / keyword / argument omitted (default)
                 if name == "triface":
-                    sd.triangulate_face(op[1])
+                    sd.triangulate_face(face_id=arg) if form == "kw" else sd.triangulate_face(arg)
                 elif name == "fan":
-                    sd.split_face_as_fan(op[1])
+                    sd.split_face_as_fan(face_id=arg) if form == "kw" else sd.split_face_as_fan(arg)
                 elif name == "triangulate":
                     sd.triangulate()
                 elif name == "loop":
-                    sd.loop_subdivision(op[1])
+                    sd.loop_subdivision() if form == "default" else (sd.loop_subdivision(n=arg) if form == "kw" else sd.loop_subdivision(arg))
                 elif name == "quads3":
                     sd.subdivide_triangles_3quads()
                 elif name == "tri6":
-                    sd.subdivide_triangles_6(op[1])
+                    sd.subdivide_triangles_6() if form == "default" else (sd.subdivide_triangles_6(repeat=arg) if form == "kw" else sd.subdivide_triangles_6(arg))
                 else:
                     raise RuntimeError("unknown op " + name)
     except Exception as ex:  # noqa
         out["status"] = "err"
         out["err"] = errname(ex)
+        if sd is not None:
+            after_failure(out, sd.mesh, mesh, surf_conn_ok)
         return out
     res = sd.mesh
     out["status"] = "ok"
@@ -188,12 +210,14 @@ def run_poly(M, case):
         mesh.connectivity.vertex_to_vertices(0)
         mesh.connectivity.edge_id(0, 1)
     res = mesh
+    npi = case.get("np_ints")
     try:
         for e in case["splits"]:
-            res = split_edge(res, e)
+            res = split_edge(res, conv(e, npi))
     except Exception as ex:  # noqa
         out["status"] = "err"
         out["err"] = errname(ex)
+        after_failure(out, res, mesh, poly_conn_ok)
         return out
     out["status"] = "ok"
     out["res"] = dump(res)
@@ -211,18 +235,21 @@ def run_vol(M, case):
     if case.get("query"):
         mesh.connectivity.face_to_cells(0)
     sd = None
+    npi = case.get("np_ints")
     try:
         with VolumeSubdivision(mesh) as sd:
             for op in case["ops"]:
                 if op[0] == "cellfan":
-                    sd.split_cell_as_fan(op[1])
+                    sd.split_cell_as_fan(conv(op[1], npi))
                 elif op[0] == "facecentre":
-                    sd.split_tet_from_face_center(op[1])
+                    sd.split_tet_from_face_center(conv(op[1], npi))
                 else:
                     raise RuntimeError("unknown op " + op[0])
     except Exception as ex:  # noqa
         out["status"] = "err"
         out["err"] = errname(ex)
+        if sd is not None:
+            after_failure(out, sd.mesh, mesh, vol_conn_ok)
         return out
     res = sd.mesh
     out["status"] = "ok"
